@@ -6,6 +6,7 @@ import fwd
 import c08
 
 META = {
+    "thorough_extra": ["mocks", "client-only", "server-only", "aws"],
     "level": "other",
     "explanation": "(E-FWD) every plain forwarding I/O method of the crate - TokioIo (write side, both directions), Rewind (write side), Braid / TlsBraid, client and server Stream, "
                    "DuplexStream, TcpStream, UnixStream - calls, on every path and in every match arm, the same trait item on a part of self, passes cx / buf / bufs as received and "
@@ -31,7 +32,8 @@ UNSAFE_EXPECTED = {
 
 
 def E_FWD_all(ctx, facts):
-    want = 43 if ctx.cur_config == "default" else 47
+    # counted by hand per configuration (methods compiled in): see DESIGN.md 4.3
+    want = {"default": 43, "tls": 47, "mocks": 47, "aws": 47, "client-only": 30, "server-only": 39}[ctx.cur_config]
     n = fwd.E_FWD(ctx, facts, min_count=want)
     if ctx.cur_config in ("tls", "mocks", "aws"):
         fwd.fwd_tls_stream(ctx, facts, "client::conn::stream::tls::TlsStream", "State", "client TlsStream")
@@ -205,22 +207,32 @@ def C18_4(ctx, facts):
         ctx.check(any(r.kind == "arg" and r.desc == "max_buf_size" for r in rr), "DuplexStream::new|buffer-size", "with the requested buffer size", "size roots %s" % sorted(map(repr, rr)), c.where())
 
 
+def C18_3(ctx, facts):
+    if ctx.cur_config == "client-only" and not facts.by_norm.get("rewind::Rewind::new"):
+        return ctx.ok("Rewind|not-compiled", "rewind.rs is not part of the client-only configuration (declared compile-out)")
+    return c08.C08_5(ctx, facts)
+
+
 def C18_5(ctx, facts):
     got = {}
     for u in facts.data.get("unsafe_blocks", []):
         if u["count"]:
             got[norm(u["fn"])] = u["count"]
-    ok = got == UNSAFE_EXPECTED
+    expected = dict(UNSAFE_EXPECTED)
+    if ctx.cur_config in ("client-only", "server-only"):
+        # declared compile-outs: server-only has no tcp client connect, client-only has no rewind / auto server
+        expected = {k: v for k, v in expected.items() if facts.by_norm.get(k)}
+    ok = got == expected
     ctx.check(ok, "unsafe-blocks|inventory", "hand-written unsafe blocks: exactly the eight reviewed blocks in six functions",
-              "unsafe inventory changed: %s (expected %s)" % ({k: v for k, v in got.items() if UNSAFE_EXPECTED.get(k) != v}, {k: v for k, v in UNSAFE_EXPECTED.items() if got.get(k) != v}))
-    ctx.floor("unsafe-blocks|count", sum(got.values()), 8, "unsafe blocks")
+              "unsafe inventory changed: %s (expected %s)" % ({k: v for k, v in got.items() if expected.get(k) != v}, {k: v for k, v in expected.items() if got.get(k) != v}))
+    ctx.floor("unsafe-blocks|count", sum(got.values()), sum(expected.values()), "unsafe blocks")
 
 
 RULES = [
     ("E-FWD", E_FWD_all, ["default", "tls"]),
     ("C18.1", C18_1, ["default"]),
     ("C18.2", C18_2, ["default"]),
-    ("C18.3", c08.C08_5, ["default"]),
+    ("C18.3", C18_3, ["default"]),
     ("C18.4", C18_4, ["default"]),
     ("C18.5", C18_5, ["default", "tls"]),
 ]
